@@ -253,3 +253,91 @@ async fn double_spend_within_block_rejected() {
         }
     }
 }
+
+/// C06: the bytes the creator signs (and the hash is derived from) commit to each of the 17 signed header fields (among
+/// them parent hash, creator and the transaction commitment): two headers that differ in one of them have different
+/// signed bytes, pre-hash and hash
+#[test]
+fn signed_bytes_bind_every_header_field() {
+    let mut rng = Rng::from_env();
+    for round in 0..50 {
+        let mut b = Block::new();
+        b.id = rng.next(); b.timestamp = rng.next(); b.previous_block_hash = rng.arr(); b.creator = rng.arr(); b.merkle_root = rng.arr();
+        b.graveyard = rng.next(); b.treasury = rng.next(); b.burnfee = rng.next(); b.difficulty = rng.next();
+        b.avg_total_fees = rng.next(); b.avg_fee_per_byte = rng.next(); b.avg_nolan_rebroadcast_per_block = rng.next(); b.previous_block_unpaid = rng.next();
+        b.total_fees = rng.next(); b.total_fees_new = rng.next(); b.total_fees_atr = rng.next(); b.total_fees_cumulative = rng.next(); b.fee_per_byte = rng.next();
+        let base = b.serialize_for_signature();
+        b.generate_pre_hash(); b.generate_hash(); let (ph0, h0) = (b.pre_hash, b.hash);
+        let edits: Vec<(&str, Box<dyn Fn(&mut Block)>)> = vec![
+            ("id", Box::new(|x: &mut Block| x.id ^= 1)), ("timestamp", Box::new(|x: &mut Block| x.timestamp ^= 1)),
+            ("previous_block_hash", Box::new(|x: &mut Block| x.previous_block_hash[7] ^= 1)), ("creator", Box::new(|x: &mut Block| x.creator[7] ^= 1)),
+            ("merkle_root", Box::new(|x: &mut Block| x.merkle_root[7] ^= 1)), ("graveyard", Box::new(|x: &mut Block| x.graveyard ^= 1)),
+            ("treasury", Box::new(|x: &mut Block| x.treasury ^= 1)), ("burnfee", Box::new(|x: &mut Block| x.burnfee ^= 1)), ("difficulty", Box::new(|x: &mut Block| x.difficulty ^= 1)),
+            ("avg_total_fees", Box::new(|x: &mut Block| x.avg_total_fees ^= 1)), ("avg_fee_per_byte", Box::new(|x: &mut Block| x.avg_fee_per_byte ^= 1)),
+            ("avg_nolan_rebroadcast_per_block", Box::new(|x: &mut Block| x.avg_nolan_rebroadcast_per_block ^= 1)), ("previous_block_unpaid", Box::new(|x: &mut Block| x.previous_block_unpaid ^= 1)),
+            ("avg_total_fees_new", Box::new(|x: &mut Block| x.avg_total_fees_new ^= 1)), ("avg_total_fees_atr", Box::new(|x: &mut Block| x.avg_total_fees_atr ^= 1)),
+            ("avg_payout_routing", Box::new(|x: &mut Block| x.avg_payout_routing ^= 1)), ("avg_payout_mining", Box::new(|x: &mut Block| x.avg_payout_mining ^= 1)),
+        ];
+        for (name, edit) in edits.iter() {
+            let mut c = b.clone();
+            edit(&mut c);
+            if c.serialize_for_signature() == base { witness(format!("round {}: two headers that differ only in {} have the same signed bytes — the creator's signature and the block hash do not commit to that field", round, name)); }
+            c.generate_pre_hash(); c.generate_hash();
+            if c.pre_hash == ph0 || c.hash == h0 { witness(format!("round {}: two headers that differ only in {} have the same pre-hash / hash", round, name)); }
+        }
+    }
+}
+
+/// C08: a block is accepted only if the routing work delivered to its creator meets the requirement set by the PARENT's
+/// burn fee and the elapsed time; a block that is otherwise valid and meets it is accepted. Elapsed time and delivered
+/// work are varied around the threshold.
+#[tokio::test]
+#[serial_test::serial]
+async fn routing_work_gate_contract() {
+    use crate::core::consensus::burnfee::BurnFee;
+    use crate::core::util::crypto::generate_keys;
+    let mut rng = Rng::from_env();
+    for round in 0..10 {
+        let mut t = TestManager::default();
+        t.initialize(20, 1_000_000_000).await;
+        let heartbeat = { t.config_lock.read().await.get_consensus_config().unwrap().heartbeat_interval };
+        let genesis = t.get_latest_block().await;
+        let block2 = t.create_block(genesis.hash, genesis.timestamp + 10 * heartbeat, 1, 1_000, 0, false).await;
+        let (parent_hash, parent_ts, parent_bf) = (block2.hash, block2.timestamp, block2.burnfee);
+        assert!(parent_bf > 0);
+        assert!(matches!(t.add_block(block2).await, AddBlockResult::BlockAddedSuccessfully(..)));
+        let elapsed = heartbeat + 1 + rng.below(heartbeat - 2);     // strictly between one and two heartbeats
+        let ts = parent_ts + elapsed;
+        let needed = BurnFee::return_routing_work_needed_to_produce_block_in_nolan(parent_bf, ts, parent_ts, heartbeat);
+        let delivered = match round % 5 { 0 => needed, 1 => needed - 1, 2 => needed * 9 / 10, 3 => needed * 3 / 4, _ => needed + rng.below(needed / 2 + 1) };
+        // one transaction paying `fee`, routed sender → router → creator: the creator holds fee - fee/2 work
+        let fee = 2 * delivered;
+        let (public_key, private_key) = { let w = t.wallet_lock.read().await; (w.public_key, w.private_key) };
+        let (router_pk, router_sk) = generate_keys();
+        let block3 = {
+            let configs = t.config_lock.read().await;
+            let gp = configs.get_consensus_config().unwrap().genesis_period;
+            let latest = { t.blockchain_lock.read().await.blockring.get_latest_block_id() };
+            let mut tx = { let mut w = t.wallet_lock.write().await; Transaction::create(&mut w, public_key, 1_000, fee, false, None, latest, gp).unwrap() };
+            tx.sign(&private_key);
+            tx.add_hop(&private_key, &public_key, &router_pk);
+            tx.add_hop(&router_sk, &router_pk, &public_key);
+            tx.generate(&public_key, 0, 0);
+            assert!(tx.validate_routing_path());
+            let mut txs: AHashMap<SaitoSignature, Transaction> = Default::default();
+            txs.insert(tx.signature, tx);
+            let bc = t.blockchain_lock.read().await;
+            let mut b = Block::create(&mut txs, parent_hash, std::ops::Deref::deref(&bc), ts, &public_key, &private_key, None, std::ops::Deref::deref(&configs), &t.storage).await.unwrap();
+            b.generate().unwrap(); b.sign(&private_key);
+            b
+        };
+        let work = block3.total_work;
+        let h3 = block3.hash;
+        let res = t.add_block(block3).await;
+        let tip = t.get_latest_block().await.hash;
+        let accepted = tip == h3;
+        let desc = format!("round {}: parent burn fee {}, elapsed {} ms (heartbeat {}), requirement from the parent's burn fee {}, routing work delivered to the creator {}: add_block → {:?}", round, parent_bf, elapsed, heartbeat, needed, work, res);
+        if accepted && work < needed { witness(format!("block accepted with less routing work than required: {}", desc)); }
+        if !accepted && work >= needed { witness(format!("block meeting the routing work requirement was refused: {}", desc)); }
+    }
+}
